@@ -1,6 +1,7 @@
 package main
 
 import (
+	"time"
 	"bytes"
 	"compress/gzip"
 	"fmt"
@@ -158,17 +159,18 @@ func runC20(e *emitter, tier string, seed uint64) {
 	}}}
 
 	n := 0
+	curFront, curTag := front.URL, ""
 	run := func(c *c20Case) {
 		n++
 		path := fmt.Sprintf("/c/%d", n)
-		key := strings.Join([]string{c.skip, c.ct, c.enc, c.csp, fmt.Sprint(c.hx), string(c.wire)}, "\x00")
+		key := strings.Join([]string{c.skip, c.ct, c.enc, c.csp, fmt.Sprint(c.hx), string(c.wire), curTag}, "\x00")
 		if !e.mine(key) {
 			return
 		}
 		mu.Lock()
 		cases[path] = c
 		mu.Unlock()
-		req, _ := http.NewRequest("GET", front.URL+path, nil)
+		req, _ := http.NewRequest("GET", curFront+path, nil)
 		req.Header.Set("Accept-Encoding", "gzip, br, deflate")
 		if c.hx {
 			req.Header.Set("HX-Request", "true")
@@ -289,6 +291,35 @@ func runC20(e *emitter, tier string, seed uint64) {
 	big := "<html><head><title>big</title></head><body>" + strings.Repeat("<p>paragraph é 日本</p>\n", 260000) + "</body></html>" // about 6.5 MB
 	for _, en := range []string{"", "gzip", "br"} {
 		run(mk("", "text/html; charset=utf-8", en, "", false, big, false))
+	}
+	// the application is not up yet when the request arrives (it is being restarted, as after every change in watch
+	// mode): the proxy retries, and the response it gets on a later attempt is treated like any other
+	lateRun := func(c *c20Case) {
+		l, err := net.Listen("tcp", "127.0.0.1:0")
+		if err != nil {
+			return
+		}
+		addr := l.Addr().String()
+		l.Close()
+		tgt, _ := url.Parse("http://" + addr)
+		front2 := httptest.NewServer(proxy.New(quietLog, "127.0.0.1", 0, tgt))
+		defer front2.Close()
+		srv := &http.Server{Handler: upstream.Config.Handler}
+		defer srv.Close()
+		go func() {
+			time.Sleep(180 * time.Millisecond)
+			if l2, err := net.Listen("tcp", addr); err == nil {
+				srv.Serve(l2)
+			}
+		}()
+		curFront, curTag = front2.URL, "late-backend"
+		run(c)
+		curFront, curTag = front.URL, ""
+	}
+	for _, en := range []string{"", "gzip"} {
+		for _, hxr := range []bool{true, false} {
+			lateRun(mk("", "text/html", en, "", hxr, "<div id=\"fragment\"><p>partial</p></div>", false))
+		}
 	}
 	// pages that the parse / render round trip makes SHORTER by a chosen number of bytes (each &nbsp; loses 4): also by
 	// exactly the length of the inserted script element, with and without a nonce of various lengths
